@@ -55,7 +55,7 @@ CLAIMS = {
          "Coq invariant proofs + store refinement + history correspondence", "DESIGN.md §3 C11", ""),
  "C16": ("Coq theorems C16_uniform / C16_meaning / C16_verify_never_unverified / C16_verify_after_reconfiguration (for every sequence of "
          "earlier deployments, each with its own configuration and history, nothing unverified is in force after a restart under verify) / "
-         "C16_lenient_refresh / C16_default over a policy and an adoption check that srcfacts regenerates from loadCRL, updateCrlEntry and "
+         "C16_provision_verify / C16_provision_keeps_invariant (the provision-time path of configured lists) / C16_lenient_refresh / C16_default over a policy and an adoption check that srcfacts regenerates from loadCRL, updateCrlEntry and "
          "addNewEmptyEntry on every run; the 3x3x4x2 matrix (x fetch mode x strict) run on the real validator, the provision-time crl_urls "
          "path incl. the unset mode, and two-deployment histories (mode or trusted signer changed across the restart) compared with the model "
          "and with a fresh work_dir.",
@@ -100,10 +100,12 @@ CLAIMS = {
  "C15": ("Coq theorems over a discrete-time model of n validator instances whose skip rule (divisor) and stamp placement (per instance or "
          "process-global) are regenerated from the source: C15_tick_liveness (for every interleaving of ticks and forced passes of any number "
          "of instances, at each tick of instance i one of ITS passes finishes within (t - T/2, t + d]), C15_independent (the stamp an instance "
-         "reads is the finish time of one of its own passes); real tickers (150..900 ms, 1..3 instances with phase offsets, CDP and crl_urls, "
+         "reads is the finish time of one of its own passes), C15_configured_in_force / C15_first_handshake_after_provisioning (over the repository model: "
+         "when provisioning returns without error every configured location holds in force exactly the list it serves, for every configuration, trusted-signer "
+         "set and earlier disk content); real tickers (150..900 ms, 1..3 instances with phase offsets, CDP and crl_urls, "
          "fail-k-then-succeed) observed at the origin and compared with the model tick by tick.",
          "Coq proof over the tick/stamp model + real-ticker correspondence", "DESIGN.md §3 C15",
-         "wall-clock time, time.Ticker and goroutine scheduling are runtime behaviour: the model is discrete-time, the harness allows 25% scheduling slack; 'configured CRLs are in force when provisioning returns' is exercised by the C16/C19 harnesses, not stated as a theorem."),
+         "wall-clock time, time.Ticker and goroutine scheduling are runtime behaviour: the model is discrete-time, the harness allows 25% scheduling slack; the provisioning theorem is tied to the code by the C16 provisioning matrix (evaluated in the model) and by the C15 stage that probes the entry state the moment Provision returns."),
  "C20": ("Coq theorems with name patterns generated from the source: C20_store_name (for every location string the store directory is 64 "
          "characters of [0-9a-f] — no separator, dot or underscore), C20_store_not_swept, C20_temps_swept, C20_patterns, C20_intake_clean "
          "(after an intake with any outcome no temp artefact remains and no live directory is lost), C20_cleanup_stops_ticker; a sandbox diff "
